@@ -299,13 +299,15 @@ def run(case):
         Mem.available = 48 * GiB
         ctx = W.set_ctx(W.Ctx())
         try:
-            up = _upstream(case)
+            with S.building():
+                up = _upstream(case)
             m = Model(case)
             if case['eager']:
                 out = _run_eager(case, up, ctx, m)
             else:
                 kw = {} if case['keep'] is None else {'keep_mem_free': case['keep']}
-                ds = up.cache(**kw)
+                with S.building():
+                    ds = up.cache(**kw)
                 out = _run_lazy(case, ds, ctx, m)
         finally:
             psutil.virtual_memory = saved
@@ -414,8 +416,9 @@ def _run_lazy(case, ds, ctx, m):
             _concurrent_get(case, ds, ctx, m, arg[0], arg[1], fired, trace)
         elif op == 'second_cache':
             held = None
-            up2 = _upstream(case)
-            ds = up2.cache(keep_mem_free='256 MiB')
+            with S.building():
+                up2 = _upstream(case)
+                ds = up2.cache(keep_mem_free='256 MiB')
             m = Model(case)
             m.pos = len(ctx.log)
             models.append(m)
